@@ -70,12 +70,6 @@ static std::string trace_str(const std::vector<CondEv> &tr, size_t from = 0) {
     s += std::string(tr[i].is_assert ? "assert" : "assume") + "(" + *tr[i].text + ")=" + (tr[i].outcome ? "T" : "F") + "; ";
   return s;
 }
-static bool block_has_unreachable_stmt(const cfg_t &cfg, const label_t &l) {
-  for (auto const &s : cfg.get_node(l))
-    if (s.is_unreachable())
-      return true;
-  return false;
-}
 static bool is_limit(Stop s) { return s == Stop::Outside || s == Stop::StepLimit; }
 
 static std::string outputs_str(const std::vector<var_t> &outs, const State &s) {
@@ -197,6 +191,10 @@ void run_case(const uint8_t *data, size_t size, CaseCtx &ctx) {
   crab::CrabWarningFlag = false;
   crab::domains::crab_domain_params_man::get() = crab::domains::crab_domain_params();
 
+  // ---- parameters (decoded first so that a long program cannot starve them) ------------
+  bool only_data = !t.flag();
+  unsigned nexec = 3 + t.pick(4);
+
   // ---- program ----------------------------------------------------------------------
   unsigned caps = CAP_ARITH | CAP_BITWISE | CAP_CAST | CAP_BOOL | CAP_SELECT | CAP_HAVOC | CAP_UNREACHABLE | CAP_ASSERT |
                   CAP_NONLINEAR | CAP_DISEQ | CAP_UNSTRUCTURED;
@@ -205,7 +203,6 @@ void run_case(const uint8_t *data, size_t size, CaseCtx &ctx) {
   FuncProgram fp;
   build_function(t, fp, caps);
   cfg_t &cfg = *fp.prog.cfg;
-  bool only_data = !t.flag();
   std::string text0 = full_text(cfg);
   ctx.log << text0 << "crawler only_data=" << only_data << "\n";
   ctx.mixs(text0);
@@ -327,7 +324,6 @@ void run_case(const uint8_t *data, size_t size, CaseCtx &ctx) {
   // ---- executions -----------------------------------------------------------------------------
   TextCache tc;
   bool live_nt = false, crawl_nt = false;
-  unsigned nexec = 3 + t.pick(4);
   unsigned n_forks = 0, n_dead_perturbed = 0, n_entry_perturbed = 0, n_operand_changes = 0, n_divergences = 0;
   for (unsigned e = 0; e < nexec; e++) {
     State init = initial_state(t, fp);
@@ -430,7 +426,6 @@ void run_case(const uint8_t *data, size_t size, CaseCtx &ctx) {
           size_t np = std::min(base.path.size(), pr.path.size());
           size_t nt = std::min(base.trace.size(), pr.trace.size());
           // first difference
-          std::string where; // classifier suffix
           std::string what;
           size_t pd = 0;
           while (pd < np && base.path[pd] == pr.path[pd])
@@ -445,31 +440,22 @@ void run_case(const uint8_t *data, size_t size, CaseCtx &ctx) {
             const label_t &blk = base.path[ev.path_idx];
             if (pd < np && pd <= ev.path_idx) { // the paths split before this event
               what = "the block paths split after " + base.path[pd - 1] + " (" + base.path[pd] + " vs " + pr.path[pd] + ")";
-              where = std::string("_path") + (block_has_unreachable_stmt(cfg, base.path[pd]) || block_has_unreachable_stmt(cfg, pr.path[pd])
-                                                  ? "_into_block_with_unreachable_stmt"
-                                                  : "");
             } else {
               what = std::string(ev.is_assert ? "assertion" : "assume") + " `" + *ev.text + "` in block " + blk + " evaluates to " +
                      (ev.outcome ? "true" : "false") + " vs " + (pr.trace[td].outcome ? "true" : "false");
-              where = std::string(ev.is_assert ? "_assert_outcome" : "_assume_outcome") +
-                      (block_has_unreachable_stmt(cfg, blk) ? "_in_block_with_unreachable_stmt" : "");
             }
           } else if (pd < np) {
             differs = true;
             what = "the block paths split after " + base.path[pd - 1] + " (" + base.path[pd] + " vs " + pr.path[pd] + ")";
-            where = std::string("_path") + (block_has_unreachable_stmt(cfg, base.path[pd]) || block_has_unreachable_stmt(cfg, pr.path[pd])
-                                                ? "_into_block_with_unreachable_stmt"
-                                                : "");
           } else if (!limited && (base.trace.size() != pr.trace.size() || base.path.size() != pr.path.size() || base.end != pr.end)) {
             differs = true;
             what = std::string("one run ends earlier (") + stop_name(base.end) + " vs " + stop_name(pr.end) + ")";
-            where = "_length";
           } else if (!limited && base.reached_exit && pr.reached_exit && outputs_str(fp.outputs, base.st) != outputs_str(fp.outputs, pr.st)) {
             differs = true;
             what = "the function outputs at the exit differ: " + outputs_str(fp.outputs, base.st) + " vs " + outputs_str(fp.outputs, pr.st);
-            where = std::string("_function_output") + (sh.exit_has_succ ? "_exitsucc" : "") + (seed_at_exit ? "" : "_liveseed_not_at_exit");
           }
-          (void)where;
+          // the classifier tag names the CAUSE: which known deviation of crab's liveness (if any)
+          // explains that v is reported dead, see cause_of()
           VCHECK(ctx, "C18", !differs, "live_dead_var_changes_execution_cause_" + (differs ? cause_of(b, v) : std::string()),
                  to_str(v) << " is not in the live-out set of " << b << " (" << to_str(lo) << (in_dead_exit ? "; it is in dead_exit" : "")
                            << ") but after the execution [" << path_str(snap.r.path) << "] from " << init.str() << " setting " << how << " at the end of "
